@@ -53,12 +53,12 @@ func (s callerSpec) handlerErr() error {
 
 type callerSpec struct {
 	Wraps int // 0 plain error, 1 wraps context.Canceled, 2 wraps context.DeadlineExceeded
-	Behav int // 0 drain, 1 read one then cancel late, 2 never read then cancel, 3 cancel before the reply, 4 timeout (handler held: no reply before it), 5 SendWithReply, 6 timeout while the replies sit unread
+	Behav int // 0 drain, 1 read one then cancel late, 2 never read then cancel, 3 cancel before the reply, 4 timeout (handler held: no reply before it), 5 SendWithReply, 6 timeout while the replies sit unread, 7 drain, but only after every reply has been produced
 	Fails int
 	Err   string
 }
 
-var behavNames = []string{"drain", "read-one-cancel-late", "never-read", "cancel-before-reply", "timeout", "SendWithReply", "timeout-with-unread-replies"}
+var behavNames = []string{"drain", "read-one-cancel-late", "never-read", "cancel-before-reply", "timeout", "SendWithReply", "timeout-with-unread-replies", "drain-late"}
 
 type cmdDelivery struct {
 	cmdID     string
@@ -142,27 +142,29 @@ func rrCase[R any](t *rapid.T, withResult bool) {
 		var timeout *time.Duration
 		if rapid.IntRange(0, 2).Draw(t, "listenTimeout") == 0 {
 			// incl. the boundary values: a zero or negative timeout has already passed
-			d := time.Duration(rapid.SampledFrom([]int{0, -1, 20, 35, 60}).Draw(t, "timeoutMs")) * time.Millisecond
+			d := time.Duration(rapid.SampledFrom([]int{0, -1, 20, 35, 60, 3600000}).Draw(t, "timeoutMs")) * time.Millisecond
 			timeout = &d
 		}
+		// a timeout that is far away is no timeout for the callers' purposes: they cancel, and the listener ends THEN
+		farTimeout := timeout != nil && *timeout >= time.Hour
 		// the hook is optional (nil is the default): the listener has to clean up all the same
 		noHook := rapid.IntRange(0, 3).Draw(t, "withoutOnListenForReplyFinished") == 0
 		// replies of OTHER kinds of requests on the shared reply topic: their results need not decode into this caller's type
 		foreign := rapid.SliceOfN(rapid.SampledFrom([]string{`12345`, `"text"`, `[1,2]`, `{"CmdID":7,"Attempt":"x"}`, `not json`, ``}), 0, 6).Draw(t, "foreignNotifications")
 		// sustained foreign traffic: other requests keep being answered on the shared topic for longer than the timeout;
 		// the timeout of THIS request runs from its start all the same
-		sustained := timeout != nil && *timeout > 0 && !noHook && rapid.IntRange(0, 7).Draw(t, "sustainedForeignTraffic") == 0
+		sustained := timeout != nil && *timeout > 0 && *timeout < time.Hour && !noHook && rapid.IntRange(0, 7).Draw(t, "sustainedForeignTraffic") == 0
 		specs := make([]callerSpec, nCallers)
 		for i := range specs {
-			b := rapid.SampledFrom([]int{0, 0, 1, 1, 2, 2, 3, 5}).Draw(t, "behaviour")
-			if timeout != nil {
+			b := rapid.SampledFrom([]int{0, 0, 1, 1, 2, 2, 3, 5, 7, 7}).Draw(t, "behaviour")
+			if timeout != nil && !farTimeout {
 				b = rapid.SampledFrom([]int{4, 4, 3, 0, 6, 6}).Draw(t, "behaviourWithTimeout")
 				if b == 0 {
 					b = 5
 				}
 			}
 			specs[i] = callerSpec{Behav: b, Fails: rapid.IntRange(0, 2).Draw(t, "failingAttempts"),
-				Err: rapid.SampledFrom([]string{"boom", "", "é\nx", "other error", "disk is 100% full %s"}).Draw(t, "errText"),
+				Err:   rapid.SampledFrom([]string{"boom", "", "é\nx", "other error", "disk is 100% full %s"}).Draw(t, "errText"),
 				Wraps: rapid.SampledFrom([]int{0, 0, 1, 2}).Draw(t, "errWraps")}
 		}
 		w := &world{deliv: map[string][]*cmdDelivery{}, finished: map[string]int{}, attempts: map[string]int{}, published: map[string]int{}, gates: map[string]chan struct{}{}}
@@ -442,6 +444,17 @@ func rrCase[R any](t *rapid.T, withResult bool) {
 					}
 				}
 				switch s.Behav {
+				case 7:
+					// a caller that is busy elsewhere first: every reply of its command has been published before it starts
+					// to read, and it still gets them all
+					lib.WaitUntil(lib.Live, func() bool { w.mu.Lock(); defer w.mu.Unlock(); return w.published[id] >= want })
+					time.Sleep(2 * time.Millisecond)
+					for got < want {
+						if !readOne() {
+							return
+						}
+					}
+					cancel()
 				case 0:
 					for got < want {
 						if !readOne() {
@@ -502,7 +515,7 @@ func rrCase[R any](t *rapid.T, withResult bool) {
 				if !finishedOnce(id) {
 					bad("listener: OnListenForReplyFinished never ran for %s (behaviour %s)", id, behavNames[s.Behav])
 				}
-				if s.Behav == 0 && got != want {
+				if (s.Behav == 0 || s.Behav == 7) && got != want {
 					bad("replies: caller of %s drained %d handler replies, script produces %d", id, got, want)
 				}
 			}(i, s)
